@@ -49,6 +49,11 @@ def configs(tier, seed):
         for a, b in pairs:
             for op in ('add', 'multiply'):
                 out.append({'a': a, 'b': b, 'op': op, 'sampling': 'min', 'ua': 'nm', 'ub': 'nm', 'other': 'spectrum', 'method': method})
+    # a Blackbody (a Spectrum subclass whose sample() evaluates Planck's law anywhere) as an operand whose range does not cover the
+    # other's: outside its own samples it is the fill value like any other spectrum (exp of a symbolic argument: concrete-only)
+    for op in ('add', 'multiply'):
+        for side in ('left', 'right'):
+            out.append({'a': 'u5bb', 'b': 'u3', 'op': op, 'sampling': 'min', 'ua': 'nm', 'ub': 'nm', 'other': 'blackbody', 'side': side, '_concrete': 3})
     for c in out:
         if c['ua'] != 'nm' or c['ub'] != 'nm':
             # unit conversion in floating point can move a range edge by one ulp, so that the real code sees an edge sample as outside
@@ -97,7 +102,29 @@ def _spline(W, grid, vals, q, fill, order):
     return acc
 
 
+def run_blackbody(W, cfg):
+    R = W.lentil.radiometry
+    wide = [500.0, 510.0, 520.0, 530.0, 540.0]
+    narrow = [510.0, 520.0, 530.0]
+    v = [W.real(f'v{k}', lo=-1, hi=1) for k in range(5)]
+    fill = W.real('fill', lo=-1, hi=1)
+    T = 3000.0 + 4000.0 * abs(W.real('t', lo=0, hi=1))
+    s = R.Spectrum(rnp.array(wide), rnp.array([float(x) for x in v]))
+    bb = R.Blackbody(rnp.array(narrow), T)
+    bbv = [float(x) for x in bb.value]
+    scale = max(abs(x) for x in bbv)
+    res = getattr(s, cfg['op'])(bb, fill_value=fill) if cfg['side'] == 'right' else getattr(bb, cfg['op'])(s, fill_value=fill)
+    W.ob('grid = union at the finer sampling', res.wave, rnp.array(wide))
+    want = []
+    for k, g in enumerate(wide):
+        b = bbv[narrow.index(g)] if g in narrow else fill
+        want.append(OPS[cfg['op']](v[k], b) if cfg['side'] == 'right' else OPS[cfg['op']](b, v[k]))
+    W.ob('a Blackbody operand is the fill value outside its own range (compared relative to its peak)', rnp.asarray(res.value, dtype=float) / scale, rnp.array(want) / scale)
+
+
 def run(W, cfg):
+    if cfg.get('other') == 'blackbody':
+        return run_blackbody(W, cfg)
     R = W.mod('radiometry')
     ga = [Fraction(x) for x in GRIDS[cfg['a']]]
     gb = [Fraction(x) for x in GRIDS[cfg['b']]]
